@@ -152,16 +152,26 @@ theorem single_await_propagates (p : Proc V) (st : SelState V) (now : Nat) (srcs
     not `Completed`) and registers the awaiter; the `check_completed_processes` that ends the same
     worker step then reports the error — the same `e` — to that awaiter. -/
 theorem awaiters_fail_same_error_after (w : Worker V) (a t : Nat) (pt : Proc V) (e : ErrClass)
+    (hv : w.variant.selectWaitsForAnswer = false)
     (hp : w.ex.getProc t = some pt) (hr : pt.result = some (.err e)) :
     (w.queryAndAwait a [t]).2.results = [(t, none)] ∧
     ∃ ev ∈ (w.queryAndAwait a [t]).1.checkCompleted.2, ev.awaiter = a ∧ ev.results = [(t, some (.err e))] := by
-  obtain ⟨h1, h2, h3, l, h4, h5⟩ := queryOne_failed w a t pt e hp hr
+  obtain ⟨h1, h2, h3, l, h4, h5⟩ := queryOne_failed w a t pt e hv hp hr
   have hq : w.queryAndAwait a [t] = ((w.queryOne a t).1, { awaiter := a, results := [(w.queryOne a t).2] }) := by
     simp [Worker.queryAndAwait, Worker.queryAll]
   rw [hq]
   refine ⟨by simp [h1], ?_⟩
   unfold Worker.checkCompleted
   exact checkAll_reports t a (.err e) _ _ l pt h3 (by rw [h2]; exact hp) hr h4 h5
+
+/-- Variant `selectWaitsForAnswer` (notes/C05-fixes/01): the error of an already failed target is IN the
+    first answer — no placeholder, no registration, no second message, hence no window in which the
+    awaiter's select could complete through a later source (finding C05-F2, failed target). -/
+theorem awaiters_fail_same_error_after_waits (w : Worker V) (a t : Nat) (pt : Proc V) (e : ErrClass)
+    (hv : w.variant.selectWaitsForAnswer = true)
+    (hp : w.ex.getProc t = some pt) (hr : pt.result = some (.err e)) (hst : w.ex.status t pt = .failed) :
+    w.queryAndAwait a [t] = (w, { awaiter := a, results := [(t, some (.err e))] }) := by
+  simp [Worker.queryAndAwait, Worker.queryAll, queryOne_failed_waits w a t pt e hv hp hr hst]
 
 /-- … and when that report reaches the awaiter's worker (`update_await_results` → `notify_result`
     `Err` arm → `notify_failure`), the failure is recorded for the awaiter's select with the same
@@ -232,7 +242,8 @@ def CmdOK (w : Worker V) : Cmd V → Prop
   | .queryAndAwait _ _ => True
   | .effectCompletion pid r => (w.ex.getProc pid).isSome = true ∧ ∀ wire, r = some wire → wire.wf = true
   | .notifySpawn _ => True
-  | .resume pid fnOk => fnOk = true ∧ ∃ p v, w.ex.getProc pid = some p ∧ p.result = some (.ok v)
+  -- since /repo 6b45f34 a FAILED process may be addressed as well (it is left alone)
+  | .resume pid fnOk => fnOk = true ∧ ∃ p r, w.ex.getProc pid = some p ∧ p.result = some r
 
 theorem notifyResults_total (awaiter : Nat) : ∀ (results : AMap (Option (WireRes V))) (w : Worker V) (any : Bool),
     (∀ k wire, (k, some (WireRes.ok wire)) ∈ results → wire.wf = true) →
@@ -297,8 +308,17 @@ theorem handle_command_total (w : Worker V) (c : Cmd V) (h : CmdOK w c) :
     cases w.ex.getProc pid <;> simp
   | resume pid fnOk =>
     simp only [CmdOK] at h
-    obtain ⟨h1, p, v, h2, h3⟩ := h
-    simp [Worker.handleCommand, h1, h2, h3]
+    obtain ⟨h1, p, r, h2, h3⟩ := h
+    cases r <;> simp [Worker.handleCommand, h1, h2, h3]
+
+/-- /repo 6b45f34 (finding C15-F2): resuming a FAILED persistent process — what `Repl::evaluate` does for the
+    line after a runtime error — is not an internal error of the worker: nothing changes, nothing is sent
+    (the result request that follows reports the process's error). Before, `Err(ProcessFailed)` left
+    `Worker::step` and the worker stopped. -/
+theorem resume_of_failed_process_is_no_op (w : Worker V) (pid : Nat) (p : Proc V) (e : ErrClass)
+    (hp : w.ex.getProc pid = some p) (hr : p.result = some (.err e)) :
+    w.handleCommand (.resume pid true) = .ok (w, []) := by
+  simp [Worker.handleCommand, hp, hr]
 
 /-- commands are `CmdOK` in the state in which each of them is handled -/
 def CmdsOK : Worker V → List (Cmd V) → Prop
@@ -417,7 +437,8 @@ theorem event_pids_routed (n : Nat) (prog : QM.Sys.Prog) (req : Nat) (hn : 0 < n
         ∀ t ∈ ts, ((QM.Sys.run (QM.Sys.Sys.init n prog req) cs).env.router t).isSome
     | .procResults a rs => ((QM.Sys.run (QM.Sys.Sys.init n prog req) cs).env.router a).isSome ∧
         ∀ tr ∈ rs, (QM.Sys.run (QM.Sys.Sys.init n prog req) cs).env.router tr.1 = some w
-    | .resultResp _ _ => True := by
+    | .resultResp _ _ => True
+    | .exited _ => True := by
   rcases routing_invariant n prog req hn hwf cs with h | h
   · rw [h.evtQ w] at he; simp at he
   · have := h.evts w e he
@@ -427,6 +448,7 @@ theorem event_pids_routed (n : Nat) (prog : QM.Sys.Prog) (req : Nat) (hn : 0 < n
     | await a ts => exact this
     | procResults a rs => exact this
     | resultResp _ _ => trivial
+    | exited _ => trivial
 
 /-! ### (c) `worker_step_total` without the `CmdOK` hypothesis -/
 
@@ -514,12 +536,22 @@ theorem failure_reported_to_every_registered_awaiter (s : QM.Sys.Sys) (i : Nat) 
     ((QM.Sys.reportTarget s i t).wk i).awaitersFor t = [] ∧ (QM.Sys.reportTarget s i t).fault = s.fault :=
   QM.Sys.registered_awaiters_each_reported s i t .err hr
 
-/-- target's worker, await AFTER the failure: placeholder + registration (then the report above) -/
-theorem late_awaiter_of_failed_target_is_registered (w : QM.Sys.WorkerSt) (a t : Nat) (x : QM.Sys.Proc)
+/-- target's worker, await AFTER the failure, code at HEAD: placeholder + registration (then the report above) -/
+theorem late_awaiter_of_failed_target_is_registered [QM.Sys.Cfg] (hv : QM.Sys.Cfg.selectWaits = false)
+    (w : QM.Sys.WorkerSt) (a t : Nat) (x : QM.Sys.Proc)
     (hx : w.procs t = some x) (hr : x.result = some .err) :
     (QM.Sys.queryTargets w a [t]).2 = [(t, none)] ∧ a ∈ (QM.Sys.queryTargets w a [t]).1.awaitersFor t ∧
     t ∈ (QM.Sys.queryTargets w a [t]).1.awaited ∧ (QM.Sys.queryTargets w a [t]).1.resultOf t = some .err :=
-  QM.Sys.query_of_failed_target_registers w a t x hx hr
+  QM.Sys.query_of_failed_target_registers hv w a t x hx hr
+
+/-- … and under the variant `selectWaits` (notes/C05-fixes/01): the error is in the first answer, nobody is
+registered, no second message — the window of finding C05-F2 (failed target) does not exist -/
+theorem late_awaiter_of_failed_target_is_answered_waits [QM.Sys.Cfg] (hv : QM.Sys.Cfg.selectWaits = true)
+    (w : QM.Sys.WorkerSt) (a t : Nat) (x : QM.Sys.Proc)
+    (hx : w.procs t = some x) (hr : x.result = some .err) (hq : t ∉ w.queue)
+    (hp : ¬ (t ∈ w.spawning ∨ t ∈ w.selecting)) :
+    QM.Sys.queryTargets w a [t] = (w, [(t, some .err)]) :=
+  QM.Sys.query_of_failed_target_answers_waits hv w a t x hx hr hq hp
 
 /-- environment, initial multi-worker query still pending: the failure overrides the placeholder that
 was merged first (seeded/C15-3 kept the placeholder: `first_report_wins_loses_failure`) -/
@@ -568,7 +600,7 @@ select's — the same obstacles as C04's `AwaitAnswerCompleteStatement`). The st
 is quiescent, no live process still awaits a failed process without having it recorded as a failed
 (ready) source of its select. Observed by the harness on every run (`kind=hang role=awaiter`,
 C05's `kind=await-result-lost`). -/
-def FailureReachesAwaitersStatement : Prop :=
+def FailureReachesAwaitersStatement [QM.Sys.Cfg] : Prop :=
   ∀ (n : Nat) (prog : QM.Sys.Prog) (req : Nat), 0 < n → QM.Sys.ProgWF prog → ∀ (cs : List QM.Sys.Choice),
     (QM.Sys.run (QM.Sys.Sys.init n prog req) cs).quiescent →
     ∀ (wa wt a t : Nat) (x y : QM.Sys.Proc),
@@ -579,6 +611,7 @@ def FailureReachesAwaitersStatement : Prop :=
 /-! ## The failure chain as an invariant of the composed system (round 3) -/
 section FailChain
 open QM.Sys
+variable [QM.Sys.Cfg]
 
 /-- MISSING LEMMA 1 (positional queue facts + registry location): there is an invariant of the composed
 system — true when evaluation starts, preserved by every micro-step in states satisfying C04's routing /
@@ -633,6 +666,31 @@ theorem failure_reaches_awaiters_partial (hQ : QueueOrderStatement) (hC : Checke
   · rcases hC n prog req hn hwf cs with h | hck
     · rw [preStart_no_awaiting h wa a x t hx] at hs; cases hs
     · exact quiescent_failed_target_is_recorded _ h1 h2 h3 ⟨h4, hck, h5⟩ hq wa wt a t x y hx hs hy hyr
+
+/-- **The environment credits an answer to a pending await by its SENDER, not by its content** (finding
+C05-F3, every state of M-Sys). The awaiter `a` has a pending await that still expects only worker `w`
+(its current select awaits `u`, which lives on `w`; nothing collected yet). A LATE REPORT arrives from
+`w` about another process `t` — a target of an EARLIER select of `a`, whose registration was left
+behind when that select completed through a message. `handle_process_results` takes it for `w`'s
+answer: the pending entry is closed and the "merged answer" — which does not mention `u` — is sent to
+the awaiter. At HEAD this wakes the select, which then walks its sources with `u` still unknown
+(`! [u, 0]` yields `[]` although `u` has finished: corpus/C05/select-before-answer-stale-answer.json,
+124 of 601 schedules on the real code). The real answer of `w` about `u` is forwarded later. -/
+theorem stale_report_closes_newer_pending_await (s : Sys) (a t u : Pid) (w wa : Wid) (r : Res)
+    (hp : s.env.pending a = some { expected := [w], responses := [] })
+    (hrt : s.env.router t = some w) (hra : s.env.router a = some wa) (htu : t ≠ u) :
+    (handleProcResultsWith mergeAnswer s a [(t, some r)]).env.pending a = none ∧
+    Cmd.updateAwait a [(t, some r)] ∈ (handleProcResultsWith mergeAnswer s a [(t, some r)]).cmdQ wa ∧
+    alookup [(t, some r)] u = (none : Option (Option Res)) := by
+  unfold handleProcResultsWith
+  simp only [hp, hrt]
+  have hf : (List.filter (fun x => decide (x ≠ w)) [w]).isEmpty = true := by simp
+  simp only [hf, if_true, hra]
+  refine ⟨?_, ?_, ?_⟩
+  · simp [Sys.pushCmd, upd_same]
+  · simp [Sys.pushCmd, upd_same, mergeAnswer, ainsert, alookup]
+  · simp [alookup, htu]
+
 
 end FailChain
 
